@@ -56,6 +56,11 @@ func (c *EventCache) Add(event *Event) (added bool) {
 		return false
 	}
 
+	// Ephemeral events are not expected to be stored.
+	if event.EventType() == EventTypeEphemeral {
+		return true
+	}
+
 	if added = c.add(eventKey, event); !added {
 		return
 	}
@@ -212,19 +217,18 @@ func (c *EventCache) getEventKey(event *Event) string {
 		idx := slices.IndexFunc(event.Tags, func(t Tag) bool {
 			return len(t) >= 1 && t[0] == "d"
 		})
-		if idx < 0 {
-			return ""
-		}
 
+		// a missing d tag is the same as an empty d value
 		d := ""
-		if len(event.Tags[idx]) > 1 {
+		if idx >= 0 && len(event.Tags[idx]) > 1 {
 			d = event.Tags[idx][1]
 		}
 
 		return fmt.Sprintf("%d:%s:%s", event.Kind, event.Pubkey, d)
 	}
 
-	return ""
+	// ephemeral events have no slot of their own; they are never stored
+	return event.ID
 }
 
 func (c *EventCache) getEventKeyFromKind5Tags(event *Event) []string {
